@@ -122,13 +122,13 @@ func dump(file string) {
 				fmt.Fprintf(os.Stderr, "  FINDING %s\n    %s\n", fd.sig, fd.detail)
 			}
 		}
-		if !abort && probeAvailable {
+		if probeAvailable {
 			r := &engine.R{}
 			reports := map[*vm.BytecodeFunction]*funcReport{}
 			for _, f := range collectFunctions(fn) {
 				reports[f] = verifyFunction(f, model)
 			}
-			conform(r, program{id: "dump", construct: "dump", src: string(b), pool: strings.Contains(string(b), "async")}, "plain", fn, reports)
+			conform(r, program{id: "dump", construct: "dump", src: string(b), pool: strings.Contains(string(b), "async")}, fmt.Sprint("abort=", abort), fn, reports)
 			elkrun.ResetRuntime()
 			fmt.Fprintf(os.Stderr, "conformance: validated=%d counters=%v outcomes=%v\n", r.Validated, r.Counters, r.Outcomes)
 			for _, v := range r.Viol {
